@@ -92,6 +92,12 @@ theorem C18_atomic_calls {DT : Type} (E : Env DT) (b : Nat) (ops : List (Op DT))
       quiet E (runSteps E (init b) (p ++ [m])) suf = true) := by
   rw [run_eq_runSteps]; exact C18_atomic E b (expand ops)
 
+/-- …and, table by table, the rows another connection sees are a prefix of the rows the writer has inserted so far
+    (`committed ++ pending = written so far`): nothing is visible that was not written, in the order written. -/
+theorem C18_visible_is_prefix {DT : Type} (E : Env DT) (b : Nat) (ms : List (Step DT)) (n : Text) :
+    ∃ pending, rowsOf (runSteps E (init b) ms).work n = rowsOf (runSteps E (init b) ms).committed n ++ pending :=
+  committed_prefix E ms (init b) (fun _ => ⟨[], rfl⟩) n
+
 /-- Schema ⊇: after any history, for every descriptor handed to `write` before the first close, the name resolves to
     a table and every table it resolves to has a column for every field of that descriptor (so a type of the same
     name that gained fields got its columns added). -/
@@ -103,6 +109,15 @@ theorem C18_schema {DT : Type} (E : Env DT) (b : Nat) (ops : List (Op DT))
   intro w hw
   rw [C18_work_is_replay E b ops hacc]
   exact covered_foldl (writesOf E ops) [] w hw
+
+/-- When does SQLite accept every DDL statement of a history (the hypothesis `accepted` above)? Whenever the field
+    names occurring in it — reserved fields included — are pairwise different up to ASCII case and no descriptor
+    repeats a field name. (The complement is the recorded finding: `a` and `A` in one type are refused.) -/
+theorem C18_accepted_of_case_distinct_fields {DT : Type} (E : Env DT) (ops : List (Op DT)) (U : List Text)
+    (hU : ∀ a ∈ U, ∀ b ∈ U, sameIdent a b = true → a = b)
+    (hfields : ∀ w ∈ writesOf E ops, (w.1.fields.map (·.1)).Nodup ∧ ∀ f ∈ w.1.fields, f.1 ∈ U) :
+    accepted E.store [] (writesOf E ops) = true :=
+  accepted_of_caseDistinct U hU E.store (writesOf E ops) [] (by intro t ht; cases ht) hfields
 
 /-- Quoting: for every name over the character set of valid type/field names (ASCII letters, digits, `_`, `/`) the
     identifier as embedded in the SQL text (`"name"`) is read back by the SQL lexer as exactly that name, and the rest
